@@ -234,6 +234,8 @@ def flatten(v):
 def run(R):
     R.build()
     R.prove('Props/C02.v')
+    from ..flagtie import regen_and_tie_flags
+    regen_and_tie_flags(R)       # the flag methods of the current source, translated, equal Model.always / Model.partial
     rnd = random.Random(R.seed)
     quick = R.tier == 'quick'
     tables = gen_tables(rnd, 90 if quick else 1500)
@@ -396,6 +398,51 @@ def run(R):
                 if verdict != 'true':
                     R.counterexample('precedence-wellformed', 'tree-violates-precedence-or-associativity',
                                      {'grammar': r['desc'], 'text': text}, 'pok = true (C02_precedence_and_associativity)', tr)
+    # operators guarded by a predicate (a word is an operator only if it is one of a few): a word the predicate rejects is no
+    # operator - it is left unconsumed, whatever kind of row it was tried for.  Judged on the implementation alone by the
+    # property's read-back clause: the tree, read in order, is exactly what was consumed
+    import sys as _sys
+    _sys.path.insert(0, core.REPO)
+    from sourcer import Grammar as _Grammar
+    gdesc = ('ignore /\\s+/\nExpr = /[0-9]+/ between {\n    prefix: /[a-z]+/ where `lambda w: w in ("not", "neg")`\n'
+             '    postfix: /[a-z]+/ where `lambda w: w in ("inc",)`\n    left: /[a-z]+/ where `lambda w: w in ("and", "or")`\n'
+             '    right: /[a-z]+/ where `lambda w: w == "to"`\n}\nstart = [Expr, /(?s).*/]\n')
+    try:
+        gg = _Grammar(gdesc)
+    except Exception as e:                      # noqa
+        gg = None
+        R.counterexample('guarded-operators', 'grammar-rejected:' + type(e).__name__, {'grammar': gdesc}, 'a grammar module', str(e)[:150])
+
+    def read_back(v):
+        if isinstance(v, str):
+            return v
+        cn = type(v).__name__
+        if cn == 'Infix':
+            return read_back(v.left) + v.operator + read_back(v.right)
+        if cn == 'Prefix':
+            return v.operator + read_back(v.right)
+        if cn == 'Postfix':
+            return read_back(v.left) + v.operator
+        return '?'
+    WORDS = ['not', 'neg', 'inc', 'and', 'or', 'to', 'then', 'else', 'plus', 'x']
+    for i in range(0 if gg is None else (600 if quick else 20000)):
+        n = rnd.randrange(1, 8)
+        toks = [rnd.choice(['1', '22', '3'] + WORDS) if k else rnd.choice(['1', '22', 'not', 'neg', 'then']) for k in range(n)]
+        text = ' '.join(toks)
+        R.count('guarded-operators', text, nontrivial=n > 2)
+        try:
+            tree, rest = gg.parse(text)
+        except gg.InputError:
+            continue
+        except Exception as e:                  # noqa
+            R.counterexample('guarded-operators', 'exception:' + type(e).__name__, {'grammar': gdesc, 'text': text}, 'a result', str(e)[:120])
+            continue
+        consumed = text[:len(text) - len(rest)]
+        if read_back(tree) != consumed.replace(' ', ''):
+            R.counterexample('guarded-operators', 'tree-does-not-read-back-as-consumed-input', {'grammar': gdesc, 'text': text},
+                             {'consumed': consumed, 'so the tree reads': consumed.replace(' ', '')}, {'tree_reads': read_back(tree), 'tree': repr(tree)})
+        else:
+            R.traces += 1
     R.assumptions += ['token-level stream: operator spellings are single characters and operands single digits, so that tokenisation is unambiguous',
                       'mixfix rows and spellings that are prefixes of one another are covered by the expression-level model (Model.op_main) and the yield judge only']
     return R.finish(
